@@ -478,10 +478,11 @@ class Spec(pipeprops.PropSpec):
                     fails.append((None, "premise profile_exact (P1) of C03_conformance_partial does not hold of the "
                                         "model's profile on this strict-domain input"))
                 # the schema the theorems speak about (SchemaOf.schema_of of the model's shapes) is the one parsed
-                # from the text
+                # from the MODEL's text (which the correspondence compares with the implementation's)
                 ms = pipeprops._mb().call("c03_model_schema", pipe.model_table(ts, cfg))
-                if ms[0][0] == "ok":
-                    mine = [r for r in validator_table(doc, [], []) if r[0] in ("S", "C")]
+                mt = pipe.model_shexc(pipeprops._mb(), ts, cfg)
+                if ms[0][0] == "ok" and mt[0] == "ok":
+                    mine = [r for r in validator_table(pipe.canon(mt[1]), [], []) if r[0] in ("S", "C")]
                     theirs = [[f for f in r] for r in ms[1:]]
                     for r in theirs:
                         r[1] = unlabel(r[1])
@@ -490,7 +491,7 @@ class Spec(pipeprops.PropSpec):
                         if r[0] == "C" and r[6] != "E":
                             r[7] = "0"
                     if [list(map(str, r)) for r in mine] != theirs:
-                        raise RuntimeError("schema_of(model shapes) differs from the schema parsed from the text: %r vs %r" % (
+                        raise RuntimeError("schema_of(model shapes) differs from the schema parsed from the model's text: %r vs %r" % (
                             [r for r in theirs if r not in mine][:2], [r for r in mine if r not in theirs][:2]))
             # (2) '?' only where no instance has two matching values (recount from the triples)
             nb = neighbours(ts, cfg["inverse_paths"])
